@@ -496,7 +496,8 @@ def task_concrete():
 
 
 def tasks(tier):
-    return [('contracts.c13', n, {}) for n in ('task_std_getter', 'task_setters', 'task_assign_then_read', 'task_add_noise', 'task_misfit', 'task_to_dict_select', 'task_concrete')]
+    return [('contracts.c13', n, {}) for n in ('task_std_getter', 'task_setters', 'task_assign_then_read', 'task_add_noise', 'task_misfit', 'task_to_dict_select', 'task_concrete')] \
+        + [('contracts.c13_select', 'task_select_by_name', {})]
 
 
 LEVEL = ('Control-executor proof over the real source of the Survey noise model and Simulation.misfit with abstract xarray objects: '
@@ -504,4 +505,7 @@ LEVEL = ('Control-executor proof over the real source of the Survey noise model 
          '(which storages an operation may write; which results must be fresh) on every path and every combination of scalar/array/absent parameters.')
 ASSUMPTIONS = ['xarray: Dataset attribute-style access to variables and attrs; DataArray.copy(data=X) holds X itself; .sel with label lists returns the selected sub-cube as new data; sum() skips NaN',
                'sqrt / abs / conj treated as uninterpreted element-wise functions (congruence); |re d| = re |d| for re > 0',
-               'random_noise returns a fresh array (its distribution is not part of the property)']
+               'random_noise returns a fresh array (its distribution is not part of the property)',
+               'select by name (contracts/c13_select.py): label-aware xarray model -- .sel picks by label in the order asked for; a Dataset attaches unlabelled variables '
+               'by position and re-indexes labelled ones by label; concrete names (3 x 2 x 2 survey, every ordered sub-list per axis), symbolic values; '
+               'electrodes survive to_dict / from_dict; the path on which the setter rejects the (positive) scalar the original holds is excluded']
